@@ -28,6 +28,9 @@ type gRule struct {
 	Act  int   `json:"act,omitempty"`  // Rule.Action
 	Typ  int   `json:"typ,omitempty"`  // Rule.Type+1 (0 = unset => -1)
 	Flag string `json:"flag,omitempty"`
+	// Mark > 0: a state marker sits in front of R[Mark-1] (Mark-1 == len(R): at the end; in an empty
+	// rule: alone). Markers take no stack slot and do not change the language.
+	Mark int `json:"mark,omitempty"`
 }
 
 type gInput struct {
@@ -143,8 +146,17 @@ func (g *gSpec) toLalr() *lalr.Grammar {
 	}
 	for i, r := range g.Rules {
 		lr := lalr.Rule{LHS: lalr.Sym(r.L), Precedence: lalr.Sym(r.Prec), Action: r.Act, Type: r.Typ - 1, Origin: srcNode(i + 1)}
-		for _, s := range r.R {
+		for k, s := range r.R {
+			if r.Mark == k+1 {
+				lr.RHS = append(lr.RHS, lalr.Marker(0))
+			}
 			lr.RHS = append(lr.RHS, lalr.Sym(s))
+		}
+		if r.Mark == len(r.R)+1 {
+			lr.RHS = append(lr.RHS, lalr.Marker(0))
+		}
+		if r.Mark > 0 && len(ret.Markers) == 0 {
+			ret.Markers = []string{"m"}
 		}
 		if r.Flag != "" {
 			lr.Flags = []string{r.Flag}
@@ -319,6 +331,9 @@ func genRule(t *rapid.T, g *gSpec, lhs int, o gGenOpts) gRule {
 	r := gRule{L: lhs, R: []int{}}
 	for i := 0; i < n; i++ {
 		r.R = append(r.R, genSym(t, g, "sym"))
+	}
+	if rapid.IntRange(0, 11).Draw(t, "marker") == 0 {
+		r.Mark = 1 + rapid.IntRange(0, n).Draw(t, "markerPos")
 	}
 	return r
 }
